@@ -87,27 +87,27 @@ CHECKS.update({
 })
 CHECKS.update({
  "C17": dict(
-   technique="bounded-exhaustive enumeration of module programs: all visibility combinations of a depth-2 module tree x all reference forms and referrer positions, compared with an independent visibility rule (shape E)",
-   text="Every combination of `pub` on the members of a two-level module tree is combined with every reference form (qualified path, use, multi-import, wildcard, private/pub/chained/wildcard re-export, module import, relative path, from root, sibling, child and parent, shadowing by local and root definitions); the harness computes admissibility with its own Rust-like rule; an inadmissible reference must be rejected and an accepted one must return the constant of the definition its path denotes.",
-   note="Module depth 2, one function per module level, sibling modules named so that their names are string prefixes of each other. Rejecting an admissible reference is not counted as a failure.",
+   technique="bounded-exhaustive enumeration of module programs: all visibility combinations of a depth-2 module tree x all reference forms and referrer positions, and all programs of a 4-level same-name module chain (definition subsets x visibilities x probe levels x reference kinds x source orders x staging variants), compared with an independent visibility / resolution rule (shape E)",
+   text="Every combination of `pub` on the members of a two-level module tree is combined with every reference form (qualified path, use, multi-import, wildcard, private/pub/chained/wildcard re-export, module import, relative path, from root, sibling, child and parent, shadowing by local and root definitions); the harness computes admissibility with its own Rust-like rule; an inadmissible reference must be rejected and an accepted one must return the constant of the definition its path denotes. A second family nests modules root > a > b > c and defines the same member name at every subset of the four levels (each returning its own constant, with and without `pub`, inner modules with and without `pub`, members before or after the nested module); a probe at each level refers to the name unqualified, by absolute path and by a path relative to its module, in a plain program, in a program with `#stage` sections and through a quote/splice: 58 368 programs, each judged by the rule 'innermost enclosing definition' / 'the path's target, visible iff every private step encloses the referrer'.",
+   note="Module depth 2 (forms) and 3 (chain), one member name per chain, sibling modules named so that their names are string prefixes of each other. Rejecting an admissible reference is not counted as a failure; accepting a reference that denotes no definition is.",
    design="4/C17"),
 })
 CHECKS.update({
  "C09": dict(
-   technique="bounded-exhaustive enumeration of (stage-1 expression, staging context) pairs and lifted numeric computations; differential execution of the staged program against the expansion written by the harness, on both backends (shape E)",
-   text="Every expression of a menu covering each stage-1 construct is placed in every staging context (quote/splice, identity macro, macro-stage let spliced once and twice, f!(a) vs $(f(a)), nested contexts, two-argument and composed macros, code-building recursion) and compared bit for bit, for N samples on VM and WASM, with the hand-expanded program; numbers computed at the macro stage and lifted must equal the f64 the harness computes.",
-   note="Menus are finite (16 expressions x 9 contexts, nesting depth 2); expansions are the harness's templates.",
+   technique="bounded-exhaustive enumeration of (family program, expression node, staging mode) triples - every node of every program below the bound quoted and spliced back - and of (stage-1 expression, staging context) pairs and lifted numeric computations; differential execution of the staged program against its expansion (the untransformed program, or a template written by the harness), on both backends (shape E)",
+   text="Every expression of a menu covering each stage-1 construct is placed in every staging context (quote/splice, identity macro, macro-stage let spliced once and twice, f!(a) vs $(f(a)), nested contexts, two-argument and composed macros, code-building recursion) and compared bit for bit, for N samples on VM and WASM, with the hand-expanded program; numbers computed at the macro stage and lifted must equal the f64 the harness computes. In addition every program of the state-layout, closure and aggregate families below the bound is taken with each single expression node (operand, argument, callee, condition, branch, let value, lambda, block, member, mem/delay operand) quoted and spliced back on the spot in three ways (`$(`(e))`, through an identity macro, through a macro that let-binds the code value): the result must behave exactly like the untransformed program (VM on every case; WASM on every 8th in the quick tier, on all in the thorough tier).",
+   note="Menus are finite (21 expressions x 9 contexts, nesting depth 2); the family part is deviation-1 (one quoted node per program). Expansions are the harness's templates or the untransformed program, never produced by the compiler.",
    design="4/C09"),
  "C10": dict(
    technique="bounded-exhaustive enumeration of (macro body, binder naming, spliced argument, use site) combinations; metamorphic comparison of each program with its alpha-renamed variant (shape E)",
-   text="Every combination of a macro body (each binder kind), a binder naming that collides with names in play, a spliced argument mentioning each such name and a use site binding the same names is compared with the same program whose macro binders are renamed to fresh names: acceptance and outputs must be identical.",
+   text="Every combination of a macro body (each binder kind), a binder naming that collides with names in play, a spliced argument mentioning each such name and a use site binding the same names is compared with the same program whose macro binders are renamed to fresh names: acceptance and outputs must be identical. A second part defines the macro inside a module (`mod m`, and `mod m { mod n }`) and names the binders of its quoted code like a sibling member, the macro itself, the module, a member of the parent module, a root-level function or dsp.",
    note="Metamorphic oracle, no expected values. Namings that would make the renaming capture a same-stage reference are excluded (not alpha-variants).",
    design="4/C10"),
 })
 CHECKS.update({
  "C15": dict(
    technique="explicit-state exploration of compilation histories in one process (all sequences of <= d compilations over a program set built to exercise every name/hash-keyed table), each observation compared with fresh-process observations (shape S)",
-   text="Every history of up to d compilations over twelve programs is executed in a worker process, on a thread started under one of a stated set of HashMap seeds; the last compilation's bytecode listing, WASM bytes, state layout and VM/WASM outputs must equal those of an immediate recompilation and those obtained in fresh processes, whatever was compiled before.",
+   text="Every history of up to d compilations over eighteen programs (type declarations, aliases, modules, macros, destructuring patterns inside quoted code, locally bound values of a recursive sum type, records, the scheduler, programs re-using other programs' short names) is executed in a worker process, on a thread started under one of a stated set of HashMap seeds; the last compilation's bytecode listing, WASM bytes, state layout and VM/WASM outputs must equal those of an immediate recompilation and those obtained in fresh processes, whatever was compiled before.",
    note="The harness owns the HashMap seeds (it defines getrandom, which std's RandomState draws from): histories run under seed indices 1..5 (thorough 1..11) and fresh process k under seed index k, so the explored seeds are stated, not drawn at random, and a violation replays exactly; the other 2^128 seeds are not explored. The MIR text is not compared (it embeds interner ids).",
    design="4/C15"),
 })
@@ -121,7 +121,7 @@ CHECKS.update({
 CHECKS.update({
  "C19": dict(
    technique="stateless exploration of thread interleavings of the real compiler under a hand-rolled controlled (baton) scheduler with scheduling points (cfg-guarded hooks) before every access to process-global shared state; preemption-bounded (0, 1, partially 2); every schedule executed in a fork of one frozen process state with harness-owned hash seeds, so schedules replay exactly (shape S)",
-   text="Two OS threads each compile and run one program from a menu built to collide (identical sources, shared identifiers, syntax error, type error, macro expansion, a 64 KiB identifier, type declarations, two macro programs whose main-stage code goes through the staging translation with a nested resp. flat tuple let); only one thread runs at a time and control can change hands only at scheduling points placed before every use of the interner, the macro-file environment variable and the diagnostics file cache. Both serial orders and every single preemption (quick: at every 16th point; thorough: at every point, plus a sparse second preemption) are executed; in every schedule each thread must obtain exactly the diagnostics and outputs it obtains alone, with no panic and no deadlock.",
+   text="Two OS threads each compile and run one program from a menu built to collide (identical sources, shared identifiers, syntax error, type error, macro expansion, a 64 KiB identifier, type declarations, two macro programs whose main-stage code goes through the staging translation with a nested resp. flat tuple let, a program importing library modules from files, two programs that include the same file, which in turn includes a larger one); only one thread runs at a time and control can change hands only at scheduling points placed before every use of the interner, the macro-file environment variable and the diagnostics file cache. Both serial orders and every single preemption (quick: at every s-th point with s = 16, or more for long jobs so that a pair has at most ~2400 schedules; thorough: at every point, plus a sparse second preemption) are executed; in every schedule each thread must obtain exactly the diagnostics and outputs it obtains alone, with no panic and no deadlock.",
    note="Sequentially consistent interleavings at hook granularity only; loom/shuttle cannot intercept std::sync inside mimium-lang and do not finish on ~7000 lock operations per job, hence the hand-rolled scheduler. Unsynchronised memory effects (the transmuted &str from Symbol::as_str vs. reallocation of the interner buffer) cannot be observed by a cooperative scheduler; the thorough tier therefore re-executes the quick-bound schedule set under an AddressSanitizer build (nightly, offline; self-tested on a probe of exactly that pattern; evidence in C19-asan.json), which reports such an access if an explored schedule performs it. Each schedule runs in a forked copy of the warmed-up worker with getrandom interposed (VERIF_DET_RANDOM), so scheduling-point numbers are exact and a violation replays point for point.",
    thorough_cmd="./check C19 --tier thorough && ./check C19 --asan",
    design="4/C19"),
